@@ -234,8 +234,9 @@ impl<T> TryFrom<TrySendError<T>> for SendError<T> {
             TrySendError::Closed(v) => Ok(Self::Closed(v)),
             TrySendError::RemoteSend(err) => Ok(Self::RemoteSend(err)),
             TrySendError::RemoteConnect(err) => Ok(Self::RemoteConnect(err)),
+            TrySendError::RemoteListen(err) => Ok(Self::RemoteListen(err)),
             TrySendError::RemoteForward => Ok(Self::RemoteForward),
-            other => Err(other),
+            other @ TrySendError::Full(_) => Err(other),
         }
     }
 }
